@@ -416,6 +416,24 @@ def run_none_raises():
     return {"ok": True, "nontrivial": "none_raises"}
 
 
+def skippable(e):
+    """exceptions that only mean 'this model / this variant cannot feed the formula' (missing matrices, a knob the class
+    does not have, an explicitly unimplemented combination).  Anything else (NameError, AttributeError, shape errors ...)
+    is not swallowed: a formula that cannot be built is not a formula that was checked."""
+    msg = str(e)
+    if isinstance(e, NotImplementedError):
+        return True
+    if isinstance(e, (ValueError, KeyError)) and ("not set in the system" in msg or "are required" in msg):
+        return True
+    if isinstance(e, KeyError):
+        return True
+    if isinstance(e, TypeError) and ("unexpected keyword" in msg or "multiple values" in msg or "positional argument" in msg):
+        return True
+    if isinstance(e, ValueError) and ("parity under" in msg):
+        return True
+    return False
+
+
 def has_degenerate(groups):
     return any(b - a > 1 for a, b in groups)
 
@@ -430,6 +448,8 @@ def judged(build, sym, meta, system, k, groups, nb):
         try:
             f = build(d)
         except Exception as e:     # matrices this model does not have, unsupported combinations
+            if not skippable(e):
+                raise
             return ("skip:" + type(e).__name__, 0.0, 0, 0, None)
         T = getattr(f, sym_of(sym), None)
         if T is None:
@@ -586,6 +606,8 @@ def run_dyncalc(case, system, meta, groups, nb, k):
         try:
             calc = cls(**kw)
         except Exception as e:
+            if not skippable(e):
+                raise
             skipped.append(f"{label}:init:{type(e).__name__}")
             continue
         status, detail = None, None
@@ -599,6 +621,8 @@ def run_dyncalc(case, system, meta, groups, nb, k):
                     d2._UU[0] = rep @ (d1._UU[0].conj() if sym == "TR" else d1._UU[0])
                 res = [calc(d1), calc(d2)]
             except Exception as e:
+                if not skippable(e):
+                    raise
                 status = f"skip:{type(e).__name__}"
                 break
             if isinstance(res[0], VoidResult):
